@@ -469,6 +469,23 @@ def judgeScan (st : JState) (caseLine : String) (ctoks otoks : List String) : JS
     | _, _, _ =>
       if otoks.headD "" == "PANIC" then (st, [mkFail "C12" true "scanner panicked" caseLine "PANIC"]) else
       (st.bump "badline", [s!"BADLINE {caseLine}"])
+  | ["scanat", be, cl, skipS, hex] =>
+    if otoks == ["NA"] then (st.bump s!"scan.na.{be}", []) else
+    match cl.toNat?, skipS.toNat?, unhex? hex, (otoks.headD "").toNat? with
+    | some c, some skip, some buf, some n =>
+      let rest := buf.drop skip
+      let want := (rest.takeWhile (clsOf c)).length
+      let pick (b : Backend) : Scanner := if c == 0 then b.uri else if c == 1 then b.value else b.name
+      let mdl : Option Nat := if be == "0" then pick (Swar.backend 8 true) rest else some want
+      let st := ((st.bump s!"cases.scanat.b{be}.c{cl}")).bump "nontrivial.scan"
+      let st := st.sample s!"scanat.b{be}.c{cl}" caseLine
+      (st, (if n == want then [] else
+        [mkFail "C12" true "scanner entered with an uncommitted prefix did not stop at the first out-of-class byte" caseLine s!"real {n} expected {want}"]) ++
+        (if mdl == some n then [] else
+        [mkFail "C12" false "scanner model (Hx/Scan) disagrees with the real backend" caseLine s!"real {n} model {mdl}"]))
+    | _, _, _, _ =>
+      if otoks.headD "" == "PANIC" then (st, [mkFail "C12" true "scanner panicked" caseLine "PANIC"]) else
+      (st.bump "badline", [s!"BADLINE {caseLine}"])
   | ["swar", cl, hex] =>
     if otoks == ["NA"] then (st.bump "swar.na", []) else
     match cl.toNat?, unhex? hex, (otoks.headD "").toNat? with
@@ -585,6 +602,7 @@ def judgeLine (st : JState) (l : String) : JState × List String :=
     | "hist" :: _ => judgeHist st caseLine ctoks obsS
     | "scan" :: _ => judgeScan st caseLine ctoks otoks
     | "swar" :: _ => judgeScan st caseLine ctoks otoks
+    | "scanat" :: _ => judgeScan st caseLine ctoks otoks
     | "classes" :: _ => judgeScan st caseLine ctoks otoks
     | "utf8" :: _ => judgeScan st caseLine ctoks otoks
     | "info" :: _ => (st.sample "info" obsS, [])
